@@ -134,4 +134,12 @@ def simple_property_getters(path: str, classes: list[str]) -> dict[str, ast.expr
             body = strip_docstring(node.body)
             if len(body) == 1 and isinstance(body[0], ast.Return) and body[0].value is not None:
                 out[f"{cname}.{node.name}"] = body[0].value
+    # unqualified entries for property names whose getter expression is the same in every class
+    by_name: dict[str, set[str]] = {}
+    for k, v in out.items():
+        by_name.setdefault(k.split(".", 1)[1], set()).add(ast.unparse(v))
+    for k, v in list(out.items()):
+        name = k.split(".", 1)[1]
+        if len(by_name[name]) == 1:
+            out[name] = v
     return out
